@@ -97,6 +97,13 @@ example : cycleAccepts [sparse, small, dense] (cycleModelWith dropCaps GenCfg.fi
   decide
 example : resetAccepts .ptr (resetObsOfWith dropCaps (resetM GenCfg.fixed exNode .ptr dense)) = true := by decide
 
+/-- A pointer-keyed map with a nil pointer key through two cycles (the second into the reset, non-nil, empty map). -/
+def ptrKeyN : Node := .map { typn := "PM" } (intN "" true) intN
+def ptrKeyV : Val := .map false [.ptr (.int 1), .nilptr, .ptr (.int 2)] [.int 5, .int 6, .int 7]
+example : NodeWF ptrKeyN = true ∧ WT ptrKeyN ptrKeyV = true ∧ KeysOK true ptrKeyN ptrKeyV = true ∧
+    cycleAccepts [ptrKeyV, ptrKeyV] (cycleModelWith dropCaps GenCfg.fixed ptrKeyN (.map true [] []) [ptrKeyV, ptrKeyV]) = true := by
+  decide
+
 /-- `reset-nil-ptr-panics`: Reset of a value with a nil `*int` field (or a nil pointer element) dereferences it. -/
 theorem repo_not_correct :
     resetAccepts .ptr (resetObsOfWith dropCaps (resetM GenCfg.repo exNode .ptr sparse)) = false ∧
